@@ -95,8 +95,11 @@ class GotranPythonCodePrinter(PythonCodePrinter):
         if len(expr.args) == 2:
             value = f"numpy.logical_and({self._print(expr.args[0])}, {self._print(expr.args[1])})"
         else:
-            args = ", ".join(self._print(arg) for arg in expr.args)
-            value = f"numpy.logical_and.reduce(({args}))"
+            # Nest binary calls: `logical_and.reduce((a, b, c))` fails for a tuple mixing
+            # scalars and arrays and is not supported by jax
+            value = self._print(expr.args[0])
+            for arg in expr.args[1:]:
+                value = f"numpy.logical_and({value}, {self._print(arg)})"
 
         return value
 
@@ -105,8 +108,9 @@ class GotranPythonCodePrinter(PythonCodePrinter):
         if len(expr.args) == 2:
             value = f"numpy.logical_or({self._print(expr.args[0])}, {self._print(expr.args[1])})"
         else:
-            args = ", ".join(self._print(arg) for arg in expr.args)
-            value = f"numpy.logical_or.reduce(({args}))"
+            value = self._print(expr.args[0])
+            for arg in expr.args[1:]:
+                value = f"numpy.logical_or({value}, {self._print(arg)})"
 
         return value
 
